@@ -523,8 +523,22 @@ func (x *Exec) callByContract(ct *Contract, callee *types.Func, n *ast.CallExpr,
 			}
 		}
 	}
-	// arguments of the form &x (possibly converted): the callee may write through them
-	for _, a := range n.Args {
+	// arguments of the form &x (possibly converted): the callee may write through them. For a variadic parameter of
+	// pointer type (parseInts(strs, &a, &b, ...)) that the callee declares in `modifies`, the post value of the
+	// parameter is the slice of pointers to the new values of the operands, so that its ensures can describe them.
+	varIdx := -1
+	var varName string
+	var varSl Sl
+	if sig.Variadic() && !n.Ellipsis.IsValid() {
+		varIdx = sig.Params().Len() - 1
+		varName = sig.Params().At(varIdx).Name()
+		if sl, ok := names[varName].(Sl); ok && ct.Modifies[varName] {
+			varSl = sl
+		} else {
+			varIdx = -1
+		}
+	}
+	for ai, a := range n.Args {
 		e := ast.Unparen(a)
 		for {
 			if ce, ok := e.(*ast.CallExpr); ok && len(ce.Args) == 1 {
@@ -537,9 +551,18 @@ func (x *Exec) callByContract(ct *Contract, callee *types.Func, n *ast.CallExpr,
 		}
 		if ue, ok := e.(*ast.UnaryExpr); ok && ue.Op == token.AND {
 			if _, isLit := ast.Unparen(ue.X).(*ast.CompositeLit); !isLit {
-				post = x.assign(ue.X, c.freshVal("call."+short+".out", x.typeOf(ue.X), nil), post)
+				fv := c.freshVal("call."+short+".out", x.typeOf(ue.X), nil)
+				post = x.assign(ue.X, fv, post)
+				if varIdx >= 0 && ai >= varIdx {
+					if _, isPt := vSelect(varSl.Arr, tInt(int64(ai-varIdx))).(Pt); isPt {
+						varSl.Arr = vStore(varSl.Arr, tInt(int64(ai-varIdx)), Pt{tFalse, fv, x.typeOf(ue.X)})
+					}
+				}
 			}
 		}
+	}
+	if varIdx >= 0 {
+		postNames[varName] = varSl
 	}
 	for _, h := range ct.ModifiesHeap {
 		ft := c.eng.heapFieldType(h)
@@ -577,6 +600,14 @@ func (x *Exec) callByContract(ct *Contract, callee *types.Func, n *ast.CallExpr,
 	}
 	for _, en := range ct.Ensures {
 		c.assume(post.pc, penv.evalBool(en.E))
+		if varIdx >= 0 {
+			// explicit argument list: also the instances of quantified ensures at its positions (no term of the caller triggers them)
+			if n, ok := isIntLit(varSl.Len); ok && n <= 16 {
+				if g := penv.groundInstances(en.E, int(n)); g != tTrue {
+					c.assume(post.pc, g)
+				}
+			}
+		}
 	}
 	c.inlined["contract:"+short] = true
 	x.reach(post, n.Pos(), "after call of "+short)
